@@ -10,11 +10,11 @@ for line in open(os.path.join(HERE, "seeded", "RESULTS.md")):
             rows[c[0]] = c
 out = []
 out.append("### 10.5 Seeded defects: which checks catch which changes\n")
-out.append("Seven rounds of fresh sub-agents (round 1: 2 changes for each of the 18 properties; round 2: 3 \"harder\" "
+out.append("Eight rounds of fresh sub-agents (round 1: 2 changes for each of the 18 properties; round 2: 3 \"harder\" "
            "changes for 15 properties; rounds 3 and 4: two-site changes; round 5: 3 changes each for the contract-style "
            "properties, told to avoid the obvious site; round 6: 3 changes each for the scheduler properties, told which "
            "mechanisms earlier rounds had already used; round 7: the contract-style and fault properties again, with the list "
-           "of mechanisms to avoid) got only the text of one property and a scratch "
+           "of mechanisms to avoid; round 8: the same plus C16 and C17, with longer lists) got only the text of one property and a scratch "
            "worktree; every kept change was re-verified here (patch applies to the current /repo HEAD, the 233 tests pass "
            "with it, the demonstration fails with it and passes without it) and lives in `seeded/<id>/` (`patch.diff`, "
            "`demo.py`, `notes.md`, `meta.json`). `seeded/own-*` is the own catalogue of section 7. `tools/run_mutant.sh` "
@@ -38,7 +38,12 @@ out.append("Checks that were *strengthened because they missed a change* (each m
            "from type defaults and `any_inputs`, one `initial_data` dict reused, one source attribute to two destination "
            "attributes), C12 (several starts from one `sim_config` entry with different descriptions, old API versions with a "
            "declared type), C14 (an agent asking several sources in one asynchronous `get_data`), C06 (`run()` a second time on "
-           "a rejected world).\n")
+           "a rejected world); round 8: C11 (`weak=True` together with `time_shifted`; a refused connection after an accepted one in the "
+           "other direction, followed by a run), C12 (`init()` returning a customised copy instead of `self.meta`; one module-level "
+           "model table started as one type, then as another), C16 (agents that also feed the controlled simulator over a "
+           "time-shifted connection), C17 (event receivers with a schedule of their own, events set from inside `step()`, a "
+           "`setup_done` that takes time), C14 (`CancelledError` as exception class; an in-process source that never answers an "
+           "agent's asynchronous request), C18 (attribute-less calls; the caller's destination list judged after the call).\n")
 out.append("| seeded defect | origin | checks run -> verdict | what it is |")
 out.append("|---|---|---|---|")
 n = caught = 0
